@@ -419,6 +419,11 @@ func discharge(o *Obligation, prelude, dir string, timeoutS, seed int, both bool
 	base = fmt.Sprintf("%s.%d", base, time.Now().UnixNano()%1000000)
 	ctx, cancel := context.WithCancel(context.Background())
 	defer cancel()
+	if o.goal == "(= 0 0)" && o.Kind == "waitlevel.ok" {
+		// the level comparison was decided syntactically when the obligation was generated
+		o.Status, o.Solver, o.Agree = "discharged", "level-order", 1
+		return
+	}
 	if o.goal == "false" && o.Expect != "sat" && isLockKind(o.Kind) {
 		// "this point is unreachable": decided by a short refutation attempt of the path condition;
 		// not retried (nothing but an infeasible path can discharge it)
